@@ -364,6 +364,14 @@ static inline TSNode ts_node__descendant_for_byte_range(
       // touch the start of the range.
       if (range_start < ts_node_start_byte(child)) break;
 
+      // An empty node that is neither visible nor has visible children cannot be
+      // or contain the answer, but a sibling that starts at the same position can.
+      if (
+        is_empty &&
+        !ts_node__is_relevant(child, include_anonymous) &&
+        ts_node__relevant_child_count(child, include_anonymous) == 0
+      ) continue;
+
       node = child;
       if (ts_node__is_relevant(node, include_anonymous)) {
         last_visible_node = node;
@@ -411,6 +419,13 @@ static inline TSNode ts_node__descendant_for_point_range(
       // The start of this node must extend far enough backward to
       // touch the start of the range.
       if (point_lt(range_start, ts_node_start_point(child))) break;
+
+      // (see ts_node__descendant_for_byte_range)
+      if (
+        is_empty &&
+        !ts_node__is_relevant(child, include_anonymous) &&
+        ts_node__relevant_child_count(child, include_anonymous) == 0
+      ) continue;
 
       node = child;
       if (ts_node__is_relevant(node, include_anonymous)) {
